@@ -1,7 +1,7 @@
 (* Extraction of the executable models. Only ExtrOcamlBasic directives are used. *)
 Require Extraction.
 Require Import ExtrOcamlBasic.
-From FS Require Import Sexp Cli Patch.
+From FS Require Import Sexp Cli Patch Fetch.
 
 Definition drv_add := Z.add.
 Definition drv_mul := Z.mul.
@@ -9,4 +9,5 @@ Definition drv_opp := Z.opp.
 Definition drv_quotrem := Z.quotrem.
 
 Extraction "fsmodel.ml" drv_add drv_mul drv_opp drv_quotrem
-  run_c20_split run_c20_main run_c20_patch.
+  run_c20_split run_c20_main run_c20_patch
+  run_c05.
